@@ -1,5 +1,525 @@
-//! C02 driver (filled in below).
-pub fn main(_args: &[String]) {
-    eprintln!("ct mode not built yet");
-    std::process::exit(2);
+//! C02 driver: runs every constant-time entry point on *tainted* secrets. Under
+//! `valgrind --tool=memcheck` the secret bytes are marked undefined through a client request, so that
+//! every conditional jump or memory address that depends on them is reported (memcheck's shadow bits
+//! are the dynamic taint tracking). Outside valgrind the client requests are no-ops, and the program
+//! just prints which entries exist and whether the secret influenced the output.
+
+#![allow(non_snake_case)]
+
+use crate::props::c09::TapeRng;
+use std::hint::black_box;
+
+// ------------------------------------------------------------------ valgrind client requests
+
+#[cfg(target_arch = "x86_64")]
+#[inline(never)]
+fn vg_request(req: u64, a1: u64, a2: u64) -> u64 {
+    let args: [u64; 6] = [req, a1, a2, 0, 0, 0];
+    let mut res: u64 = 0;
+    unsafe {
+        core::arch::asm!(
+            "rol rdi, 3", "rol rdi, 13", "rol rdi, 61", "rol rdi, 51", "xchg rbx, rbx",
+            inout("rdx") res, in("rax") args.as_ptr(), out("rdi") _,
+            options(nostack)
+        );
+    }
+    res
+}
+#[cfg(not(target_arch = "x86_64"))]
+fn vg_request(_req: u64, _a1: u64, _a2: u64) -> u64 {
+    0
+}
+
+const VG_MAKE_MEM_UNDEFINED: u64 = 0x4d430001;
+const VG_MAKE_MEM_DEFINED: u64 = 0x4d430002;
+const VG_RUNNING_ON_VALGRIND: u64 = 0x1001;
+
+pub fn on_valgrind() -> bool {
+    vg_request(VG_RUNNING_ON_VALGRIND, 0, 0) != 0
+}
+pub fn taint(b: &mut [u8]) {
+    if !b.is_empty() {
+        vg_request(VG_MAKE_MEM_UNDEFINED, b.as_mut_ptr() as u64, b.len() as u64);
+    }
+}
+pub fn untaint<T: Copy>(v: &mut T) {
+    vg_request(VG_MAKE_MEM_DEFINED, v as *mut T as u64, core::mem::size_of::<T>() as u64);
+}
+pub fn untaint_bytes(b: &mut [u8]) {
+    if !b.is_empty() {
+        vg_request(VG_MAKE_MEM_DEFINED, b.as_mut_ptr() as u64, b.len() as u64);
+    }
+}
+
+// ------------------------------------------------------------------ per-case context
+
+pub struct Ctx {
+    state: u64,
+    /// public shape parameters of this run
+    pub shape: usize,
+    pub out: Vec<u8>,
+    pub tainted_bytes: usize,
+}
+
+impl Ctx {
+    fn next(&mut self) -> u64 {
+        self.state ^= self.state << 13;
+        self.state ^= self.state >> 7;
+        self.state ^= self.state << 17;
+        self.state
+    }
+    /// n secret bytes of the given class (0 uniform, 1 all-zero, 2 all-ones, 3 small), marked undefined
+    pub fn secret(&mut self, n: usize) -> Vec<u8> {
+        let class = self.shape % 4;
+        let mut v: Vec<u8> = (0..n).map(|_| self.next() as u8).collect();
+        match class {
+            1 => v.iter_mut().for_each(|x| *x = 0),
+            2 => v.iter_mut().for_each(|x| *x = 0xFF),
+            3 => { v.iter_mut().for_each(|x| *x = 0); if n > 0 { v[0] = 1 + (self.next() % 3) as u8; } }
+            _ => {}
+        }
+        self.tainted_bytes += n;
+        taint(&mut v);
+        v
+    }
+    pub fn public(&mut self, n: usize) -> Vec<u8> {
+        (0..n).map(|_| self.next() as u8).collect()
+    }
+    /// public message length drawn from the shape (crosses block boundaries)
+    pub fn msg_len(&self) -> usize {
+        [0usize, 1, 32, 55, 56, 63, 64, 65, 111, 112, 128, 200, 300][(self.shape / 4) % 13]
+    }
+    pub fn emit(&mut self, b: &[u8]) {
+        let mut v = b.to_vec();
+        untaint_bytes(&mut v);
+        self.out.extend_from_slice(&v);
+    }
+    pub fn emit_u32(&mut self, x: u32) {
+        let mut y = x;
+        untaint(&mut y);
+        self.out.extend_from_slice(&y.to_le_bytes());
+    }
+}
+
+pub struct Entry {
+    pub name: &'static str,
+    pub f: fn(&mut Ctx),
+}
+
+// ------------------------------------------------------------------ positive controls (must be flagged)
+
+#[inline(never)]
+fn ct_entry_control_branch(c: &mut Ctx) {
+    let s = c.secret(4);
+    let mut x = 0u32;
+    if black_box(s[0]) & 1 != 0 {
+        x = black_box(12345);
+    }
+    c.emit_u32(x);
+}
+#[inline(never)]
+fn ct_entry_control_index(c: &mut Ctx) {
+    let s = c.secret(4);
+    let tab = black_box([11u32, 22, 33, 44]);
+    let x = tab[(black_box(s[1]) & 3) as usize];
+    c.emit_u32(x);
+}
+
+// ------------------------------------------------------------------ fields
+
+macro_rules! field_entries {
+    ($fname:ident, $t:ty, $sqrt:expr, $n:expr) => {
+        #[inline(never)]
+        fn $fname(c: &mut Ctx) {
+            use crate::fieldapi::PF;
+            let (sa, sb) = (c.secret($n), c.secret($n));
+            let a = <$t as PF>::decode_reduce(&sa, 0);
+            let b = <$t as PF>::decode_reduce(&sb, 0);
+            let mut r = <$t as PF>::add(a, b, 0);
+            r = <$t as PF>::mul(r, <$t as PF>::sub(a, b, 0), 0);
+            r = <$t as PF>::add(r, <$t as PF>::square(a, 0), 0);
+            r = <$t as PF>::add(r, <$t as PF>::half(<$t as PF>::neg(b, 0)), 0);
+            r = <$t as PF>::add(r, <$t as PF>::mulk(a, 8, 0), 0);
+            r = <$t as PF>::add(r, <$t as PF>::xsquare(b, 3), 0);
+            let q = <$t as PF>::div(r, b, 0);
+            c.emit(&<$t as PF>::encode_ct(q));
+            c.emit_u32(<$t as PF>::equals(a, b));
+            c.emit_u32(<$t as PF>::iszero(a));
+            let mut l = <$t as PF>::legendre(a);
+            untaint(&mut l);
+            c.emit_u32(l as u32);
+            if $sqrt {
+                let (rt, st) = <$t as PF>::sqrt(a);
+                c.emit(&<$t as PF>::encode_ct(rt));
+                c.emit_u32(st);
+            }
+            let (d, st) = <$t as PF>::decode_ct(&sa[..<$t as PF>::enc_len().min(sa.len())], 0);
+            c.emit(&<$t as PF>::encode_ct(d));
+            c.emit_u32(st);
+            let ctl = <$t as PF>::iszero(b);
+            let mut x = a;
+            <$t as PF>::set_cond(&mut x, &b, ctl);
+            let mut y = b;
+            <$t as PF>::cswap(&mut x, &mut y, <$t as PF>::equals(a, b));
+            c.emit(&<$t as PF>::encode_ct(<$t as PF>::select(&x, &y, !ctl)));
+            let mut bi = [a, b, r, <$t as PF>::zero()];
+            <$t as PF>::batch_invert(&mut bi);
+            c.emit(&<$t as PF>::encode_ct(bi[2]));
+        }
+    };
+}
+field_entries!(ct_entry_field_gf25519, crrl::field::GF25519, true, 40);
+field_entries!(ct_entry_field_gf255e, crrl::field::GF255e, true, 40);
+field_entries!(ct_entry_field_gf255s, crrl::field::GF255s, true, 40);
+field_entries!(ct_entry_field_gfp256, crrl::field::GFp256, true, 40);
+field_entries!(ct_entry_field_gfsecp256k1, crrl::field::GFsecp256k1, true, 40);
+field_entries!(ct_entry_field_gf448, crrl::field::GF448, true, 64);
+field_entries!(ct_entry_field_sc_ed25519, crrl::ed25519::Scalar, true, 40);
+field_entries!(ct_entry_field_sc_p256, crrl::p256::Scalar, false, 40);
+field_entries!(ct_entry_field_sc_secp256k1, crrl::secp256k1::Scalar, false, 40);
+field_entries!(ct_entry_field_sc_jq255e, crrl::jq255e::Scalar, true, 40);
+field_entries!(ct_entry_field_sc_jq255s, crrl::jq255s::Scalar, true, 40);
+field_entries!(ct_entry_field_sc_gls254, crrl::gls254::Scalar, true, 40);
+field_entries!(ct_entry_field_sc_ed448, crrl::ed448::Scalar, true, 64);
+
+#[inline(never)]
+fn ct_entry_field_gfb254(c: &mut Ctx) {
+    use crrl::field::{GFb127, GFb254};
+    let sa = c.secret(32);
+    let sb = c.secret(32);
+    let w = |v: &[u8], i: usize| u64::from_le_bytes(v[8 * i..8 * i + 8].try_into().unwrap());
+    let a = GFb254::w64le(w(&sa, 0), w(&sa, 1), w(&sa, 2), w(&sa, 3));
+    let b = GFb254::w64le(w(&sb, 0), w(&sb, 1), w(&sb, 2), w(&sb, 3));
+    let r = (a * b + a.square()) / b + a.sqrt() + b.invert() + a.qsolve() + a.mul_u() + b.div_z();
+    c.emit(&r.encode());
+    c.emit_u32(a.trace());
+    c.emit_u32(a.equals(b));
+    c.emit_u32(a.iszero());
+    let (x0, x1) = a.to_components();
+    let h = (x0 * x1 + x0.halftrace()) / x1 + x0.sqrt();
+    c.emit(&h.encode());
+    c.emit_u32(x0.trace());
+    let (d, st) = GFb254::decode_ct(&sa);
+    c.emit(&d.encode());
+    c.emit_u32(st);
+    let (d, st) = GFb127::decode_ct(&sa[..16]);
+    c.emit(&d.encode());
+    c.emit_u32(st);
+    // lookups with a secret index
+    let tab: [GFb254; 32] = core::array::from_fn(|i| GFb254::w64le(i as u64, 1, 2, 3));
+    let j = (sa[0] & 15) as u32;
+    for v in GFb254::lookup16_x2(&tab, j) {
+        c.emit(&v.encode());
+    }
+    let t16: [GFb254; 16] = core::array::from_fn(|i| tab[i]);
+    for v in GFb254::lookup8_x2(&t16, j & 7) {
+        c.emit(&v.encode());
+    }
+    let t8: [GFb254; 8] = core::array::from_fn(|i| tab[i]);
+    for v in GFb254::lookup4_x2(&t8, j & 3) {
+        c.emit(&v.encode());
+    }
+    for v in GFb254::lookup4_x2_nocheck(&t8, j & 3) {
+        c.emit(&v.encode());
+    }
+}
+
+#[inline(never)]
+fn ct_entry_field_gf255_lookup(c: &mut Ctx) {
+    use crrl::field::GF25519;
+    let s = c.secret(2);
+    let tab: [GF25519; 64] = core::array::from_fn(|i| GF25519::from_u32(i as u32 + 7));
+    let t48: [GF25519; 48] = core::array::from_fn(|i| tab[i]);
+    for v in GF25519::lookup16_x4(&tab, (s[0] & 15) as u32) {
+        c.emit(&v.encode());
+    }
+    for v in GF25519::lookup16_x3(&t48, (s[1] & 31) as u32) {
+        c.emit(&v.encode());
+    }
+}
+
+// ------------------------------------------------------------------ groups
+
+macro_rules! group_entries {
+    ($fname:ident, $P:ty, $S:ty, $sl:expr) => {
+        #[inline(never)]
+        fn $fname(c: &mut Ctx) {
+            use crate::points::Grp;
+            let sk = c.secret($sl);
+            let sk2 = c.secret($sl);
+            let k = <$S>::decode_reduce(&sk);
+            let k2 = <$S>::decode_reduce(&sk2);
+            // key generation: secret scalar times the generator
+            let Q = <$P>::mulgen(&k);
+            c.emit(&Grp::encode(Q));
+            // secret scalar times a public point, and times a secret point
+            let pub_pt = <$P>::mulgen(&<$S>::decode_reduce(&c.public(32)));
+            let R = pub_pt * k;
+            c.emit(&Grp::encode(R));
+            let T = Q * k2;
+            // group law on secret points
+            let U = T + R - Q.double() + (-R).xdouble(2);
+            c.emit(&Grp::encode(U));
+            c.emit_u32(U.equals(T));
+            c.emit_u32(U.isneutral());
+            let mut V = U;
+            V.set_cond(&T, U.isneutral());
+            V.set_condneg(U.equals(T));
+            c.emit(&Grp::encode(<$P>::select(&V, &T, !U.isneutral())));
+            // constant-time decoding of secret bytes
+            let mut W = <$P>::BASE;
+            let enc = Grp::encode(T);
+            let mut e2 = enc.clone();
+            e2[1] ^= sk[0] & 1;
+            let st = W.set_decode(&e2);
+            c.emit_u32(st);
+            c.emit(&Grp::encode(W));
+        }
+    };
+}
+group_entries!(ct_entry_group_ed25519, crrl::ed25519::Point, crrl::ed25519::Scalar, 40);
+group_entries!(ct_entry_group_ed448, crrl::ed448::Point, crrl::ed448::Scalar, 64);
+group_entries!(ct_entry_group_p256, crrl::p256::Point, crrl::p256::Scalar, 40);
+group_entries!(ct_entry_group_secp256k1, crrl::secp256k1::Point, crrl::secp256k1::Scalar, 40);
+group_entries!(ct_entry_group_jq255e, crrl::jq255e::Point, crrl::jq255e::Scalar, 40);
+group_entries!(ct_entry_group_jq255s, crrl::jq255s::Point, crrl::jq255s::Scalar, 40);
+group_entries!(ct_entry_group_gls254, crrl::gls254::Point, crrl::gls254::Scalar, 40);
+group_entries!(ct_entry_group_ristretto255, crrl::ristretto255::Point, crrl::ristretto255::Scalar, 40);
+group_entries!(ct_entry_group_decaf448, crrl::decaf448::Point, crrl::decaf448::Scalar, 64);
+
+#[inline(never)]
+fn ct_entry_maps(c: &mut Ctx) {
+    let s = c.secret(112);
+    c.emit(&crrl::ristretto255::Point::one_way_map(&s[..64]).encode());
+    c.emit(&crrl::decaf448::Point::one_way_map(&s).encode());
+    let n = c.msg_len().min(112);
+    c.emit(&crrl::jq255e::Point::hash_to_curve("", &s[..n]).encode());
+    c.emit(&crrl::jq255s::Point::hash_to_curve("sha256", &s[..n]).encode());
+    c.emit(&crrl::gls254::Point::hash_to_curve("", &s[..n]).encode());
+}
+
+// ------------------------------------------------------------------ signatures / key exchange
+
+#[inline(never)]
+fn ct_entry_ed25519_sign(c: &mut Ctx) {
+    let seed = c.secret(32);
+    let n = c.msg_len();
+    let m = c.secret(n);
+    let ctx = c.public([0usize, 1, 255][c.shape % 3]);
+    let sk = crrl::ed25519::PrivateKey::from_seed(&seed);
+    c.emit(&sk.public_key.encode());
+    c.emit(&sk.sign_raw(&m));
+    c.emit(&sk.sign_ctx(&ctx, &m));
+    c.emit(&sk.sign_ph(&ctx, &m[..n.min(64)]));
+}
+#[inline(never)]
+fn ct_entry_ed448_sign(c: &mut Ctx) {
+    let seed = c.secret(57);
+    let n = c.msg_len();
+    let m = c.secret(n);
+    let ctx = c.public([0usize, 1, 255][c.shape % 3]);
+    let sk = crrl::ed448::PrivateKey::from_seed(&seed);
+    c.emit(&sk.public_key.encode());
+    c.emit(&sk.sign_raw(&m));
+    c.emit(&sk.sign_ctx(&ctx, &m));
+    c.emit(&sk.sign_ph(&ctx, &m[..n.min(64)]));
+}
+#[inline(never)]
+fn ct_entry_p256_sign(c: &mut Ctx) {
+    let seed = c.secret(32);
+    let hv = c.secret([0usize, 20, 32, 64][c.shape % 4]);
+    let extra = c.secret([0usize, 16][(c.shape / 4) % 2]);
+    let sk = crrl::p256::PrivateKey::from_seed(&seed);
+    c.emit(&sk.to_public_key().encode_compressed());
+    c.emit(&sk.sign_hash(&hv, &extra));
+    c.emit(&sk.encode());
+}
+#[inline(never)]
+fn ct_entry_secp256k1_sign(c: &mut Ctx) {
+    let seed = c.secret(32);
+    let hv = c.secret([0usize, 20, 32, 64][c.shape % 4]);
+    let extra = c.secret([0usize, 16][(c.shape / 4) % 2]);
+    let sk = crrl::secp256k1::PrivateKey::from_seed(&seed);
+    c.emit(&sk.to_public_key().encode_compressed());
+    c.emit(&sk.sign_hash(&hv, &extra));
+    c.emit(&sk.encode());
+}
+macro_rules! schnorr_entry {
+    ($fname:ident, $m:ident) => {
+        #[inline(never)]
+        fn $fname(c: &mut Ctx) {
+            let sb = c.secret(40);
+            // the documented constructor panics on a zero scalar: the key is built through the generator
+            let mut rng = TapeRng { tape: sb.clone(), pos: 0 };
+            let sk = crrl::$m::PrivateKey::generate(&mut rng);
+            let n = c.msg_len();
+            let data = c.secret(n);
+            let seed = c.secret(16);
+            c.emit(&sk.public_key.encode());
+            c.emit(&sk.sign("", &data));
+            c.emit(&sk.sign_seeded(&seed, "sha256", &data[..n.min(32)]));
+            c.emit(&sk.encode());
+            // ECDH with a valid, an invalid and a neutral peer key (public values)
+            let peer = crrl::$m::Point::mulgen(&crrl::$m::Scalar::decode_reduce(&c.public(32))).encode();
+            let (k, st) = sk.ECDH(&peer);
+            c.emit(&k);
+            c.emit_u32(st);
+            let (k, st) = sk.ECDH(&c.public(32));
+            c.emit(&k);
+            c.emit_u32(st);
+            let (k, st) = sk.ECDH(&[0u8; 32]);
+            c.emit(&k);
+            c.emit_u32(st);
+        }
+    };
+}
+schnorr_entry!(ct_entry_jq255e_sign_ecdh, jq255e);
+schnorr_entry!(ct_entry_jq255s_sign_ecdh, jq255s);
+schnorr_entry!(ct_entry_gls254_sign_ecdh, gls254);
+
+#[inline(never)]
+fn ct_entry_x25519(c: &mut Ctx) {
+    let k = c.secret(32);
+    let u = c.public(32);
+    let su = c.secret(32);
+    c.emit(&crrl::x25519::x25519(u[..].try_into().unwrap(), k[..].try_into().unwrap()));
+    c.emit(&crrl::x25519::x25519(su[..].try_into().unwrap(), k[..].try_into().unwrap()));
+    c.emit(&crrl::x25519::x25519_base(k[..].try_into().unwrap()));
+}
+#[inline(never)]
+fn ct_entry_x448(c: &mut Ctx) {
+    let k = c.secret(56);
+    let u = c.public(56);
+    let su = c.secret(56);
+    c.emit(&crrl::x448::x448(u[..].try_into().unwrap(), k[..].try_into().unwrap()));
+    c.emit(&crrl::x448::x448(su[..].try_into().unwrap(), k[..].try_into().unwrap()));
+    c.emit(&crrl::x448::x448_base(k[..].try_into().unwrap()));
+}
+
+#[inline(never)]
+fn ct_entry_hashes(c: &mut Ctx) {
+    let n = c.msg_len();
+    let m = c.secret(n);
+    let key = c.secret([0usize, 1, 32][c.shape % 3]);
+    c.emit(&crrl::sha2::Sha224::hash(&m));
+    c.emit(&crrl::sha2::Sha256::hash(&m));
+    c.emit(&crrl::sha2::Sha384::hash(&m));
+    c.emit(&crrl::sha2::Sha512::hash(&m));
+    c.emit(&crrl::sha2::Sha512_256::hash(&m));
+    c.emit(&crrl::sha3::SHA3_256::hash(&m));
+    c.emit(&crrl::sha3::SHA3_512::hash(&m));
+    let mut sh = crrl::sha3::SHAKE256::new();
+    sh.inject(&m);
+    let mut o = [0u8; 70];
+    sh.flip_extract(&mut o);
+    c.emit(&o);
+    let mut o = [0u8; 32];
+    crrl::blake2s::KeyedBlake2s::hash_into(32, &key, &m, &mut o);
+    c.emit(&o);
+    c.emit(&crrl::blake2s::Blake2s256::hash(&m));
+}
+
+macro_rules! frost_entry {
+    ($fname:ident, $m:ident) => {
+        #[inline(never)]
+        fn $fname(c: &mut Ctx) {
+            use crrl::frost::$m::*;
+            let tape = c.secret(64);
+            let mut rng = TapeRng { tape, pos: 0 };
+            let sk = GroupPrivateKey::generate(&mut rng);
+            let (shares, _vss) = KeySplitter::trusted_split(&mut rng, sk, 2, 3);
+            let msg = c.public(20);
+            let (n0, c0) = shares[0].commit(&mut rng);
+            let (n1, c1) = shares[1].commit(&mut rng);
+            // commitments are published values
+            let mut e0 = c0.encode();
+            let mut e1 = c1.encode();
+            untaint_bytes(&mut e0);
+            untaint_bytes(&mut e1);
+            let (p0, p1) = (Commitment::decode(&e0).unwrap(), Commitment::decode(&e1).unwrap());
+            let list = [p0, p1];
+            if let Some(s) = shares[0].sign(n0, p0, &msg, &list) {
+                c.emit(&s.encode());
+            }
+            let _ = n1;
+            c.emit(&sk.sign_seeded(&[1, 2], &msg).encode());
+            c.emit(&shares[2].encode());
+        }
+    };
+}
+frost_entry!(ct_entry_frost_ed25519, ed25519);
+frost_entry!(ct_entry_frost_ristretto255, ristretto255);
+frost_entry!(ct_entry_frost_ed448, ed448);
+frost_entry!(ct_entry_frost_p256, p256);
+frost_entry!(ct_entry_frost_secp256k1, secp256k1);
+
+#[inline(never)]
+fn ct_entry_lms_sign(c: &mut Ctx) {
+    // only SEED is secret (I is part of the public key): the tape is public for the first 16 bytes
+    let mut tape = c.public(16);
+    tape.extend(c.secret(32));
+    let mut rng = TapeRng { tape, pos: 0 };
+    let mut sk = crrl::lms::LMS_SHA256_M32_H5_SHA256_N32_W8::PrivateKey::generate(&mut rng);
+    let msg = c.public(10);
+    let mut rng2 = TapeRng { tape: c.public(32), pos: 0 };
+    if let Some(s) = sk.sign(&mut rng2, &msg) {
+        c.emit(&s[..64]);
+    }
+}
+
+pub fn entries() -> Vec<Entry> {
+    macro_rules! e {
+        ($($f:ident),*) => { vec![$(Entry { name: &stringify!($f)[9..], f: $f }),*] };
+    }
+    e!(
+        ct_entry_control_branch, ct_entry_control_index,
+        ct_entry_field_gf25519, ct_entry_field_gf255e, ct_entry_field_gf255s, ct_entry_field_gfp256, ct_entry_field_gfsecp256k1, ct_entry_field_gf448,
+        ct_entry_field_sc_ed25519, ct_entry_field_sc_p256, ct_entry_field_sc_secp256k1, ct_entry_field_sc_jq255e, ct_entry_field_sc_jq255s, ct_entry_field_sc_gls254, ct_entry_field_sc_ed448,
+        ct_entry_field_gfb254, ct_entry_field_gf255_lookup,
+        ct_entry_group_ed25519, ct_entry_group_ed448, ct_entry_group_p256, ct_entry_group_secp256k1, ct_entry_group_jq255e, ct_entry_group_jq255s, ct_entry_group_gls254,
+        ct_entry_group_ristretto255, ct_entry_group_decaf448, ct_entry_maps,
+        ct_entry_ed25519_sign, ct_entry_ed448_sign, ct_entry_p256_sign, ct_entry_secp256k1_sign, ct_entry_jq255e_sign_ecdh, ct_entry_jq255s_sign_ecdh, ct_entry_gls254_sign_ecdh,
+        ct_entry_x25519, ct_entry_x448, ct_entry_hashes,
+        ct_entry_frost_ed25519, ct_entry_frost_ristretto255, ct_entry_frost_ed448, ct_entry_frost_p256, ct_entry_frost_secp256k1, ct_entry_lms_sign
+    )
+}
+
+fn arg(args: &[String], name: &str) -> Option<String> {
+    args.iter().position(|a| a == name).and_then(|i| args.get(i + 1).cloned())
+}
+
+/// `vexec ct --list` | `vexec ct --seed S --shapes K [--only name]`
+/// Output: one line per executed case: `case <entry> shape=<i> tainted=<bytes> out=<sha256 prefix>`.
+pub fn main(args: &[String]) {
+    let es = entries();
+    if args.iter().any(|a| a == "--list") {
+        for e in &es {
+            println!("{}", e.name);
+        }
+        return;
+    }
+    let seed: u64 = arg(args, "--seed").and_then(|s| s.parse().ok()).unwrap_or(1);
+    let shapes: usize = arg(args, "--shapes").and_then(|s| s.parse().ok()).unwrap_or(3);
+    let only = arg(args, "--only");
+    let shape0: usize = arg(args, "--shape0").and_then(|s| s.parse().ok()).unwrap_or(0);
+    let part: usize = arg(args, "--part").and_then(|s| s.parse().ok()).unwrap_or(0);
+    let parts: usize = arg(args, "--parts").and_then(|s| s.parse().ok()).unwrap_or(1);
+    println!("valgrind={}", on_valgrind());
+    for (ei, e) in es.iter().enumerate() {
+        if let Some(o) = &only {
+            if e.name != o {
+                continue;
+            }
+        } else if ei >= 2 && ei % parts != part {
+            // the two positive controls run in every part
+            continue;
+        }
+        for s in 0..shapes {
+            // shape index varies the public shape (message length, context length, ...) and the secret class
+            let shape = shape0 + s * 5 + (seed as usize % 3);
+            let mut c = Ctx { state: (seed.wrapping_mul(0x9E3779B97F4A7C15) ^ ((ei as u64) << 32) ^ s as u64) | 1, shape, out: Vec::new(), tainted_bytes: 0 };
+            (e.f)(&mut c);
+            println!("case {} shape={} tainted={} out={}", e.name, shape, c.tainted_bytes, crate::engine::hex(&refmodel::hashes::sha256(&c.out)[..8]));
+        }
+    }
 }
